@@ -42,9 +42,16 @@ struct SeqAdapter : Adapter {
   using T = Blob<N, A>;
   using L = xenium::seqlock<T, xenium::policy::slots<S>>;
   L* l = nullptr;
-  void setup(const Case&) override {
+  void setup(const Case& cs) override {
     T init; fill<N>(init.b, 0);
     l = new L(init);
+    // ver0: start at version ver0 (as after ver0 completed stores of the initial value): lets small programs run across
+    // arithmetic boundaries of the version counter (2^32, 2^63) that cannot be reached by actually storing that often
+    unsigned long long ver0 = strtoull(cs.gets("ver0", "0").c_str(), nullptr, 10);
+    if (ver0 != 0) {
+      for (unsigned i = 0; i < S; i++) memcpy((void*)&l->_data[i], (void*)&l->_data[0], sizeof(l->_data[0]));
+      l->_seq.store((typename L::sequence_t)(ver0 << 1), std::memory_order_relaxed);
+    }
     xv::Quiet q;
     xv::name_range(&l->_seq, sizeof l->_seq, "seq");
     xv::name_range(&l->_data, sizeof l->_data, "data");
